@@ -18,6 +18,8 @@ def run(rep, tier):
     kernels.oracle_self_check(rep)
     kernels.run_generators(rep, ["apply_operator_vector", "apply_operator_matrix", "reorder_vector", "reorder_matrix"])
     kernels.run_scope(rep, B.STATE_FILES)
+    from vf import lemmas
+    lemmas.lemma_obligations(rep, ["unitary_conj_trace", "conj_isHermitian", "complete_set_preserves_trace"])
     seed = common.seed()
     k = 3 if tier == "quick" else 1
     plain = (opcells.single_target_cells(tier, seed)[::k] + opcells.multi_target_cells(tier, seed)[::k] + morecells.structural_cells(tier, seed)[::k + 1]
